@@ -120,6 +120,8 @@ type FnTrans struct {
 	phase2 bool
 	siteRanks map[*SiteSpec]map[ssa.Instruction]int
 	constArrs map[string]string
+	constElemSort map[string]string // const global name -> element sort
+	constDefs     map[string]bool   // defined names whose term is built from const-slice names
 	globalsUsed map[string]bool
 }
 
@@ -151,7 +153,24 @@ func (t *FnTrans) define(prefix, sort, term string) string {
 	}
 	n := t.fresh(prefix)
 	t.defs = append(t.defs, fmt.Sprintf("(define-fun %s () %s %s)", n, sort, term))
+	if strings.Contains(term, "gconst.") || t.mentionsConstDef(term) {
+		if t.constDefs == nil {
+			t.constDefs = map[string]bool{}
+		}
+		t.constDefs[n] = true
+	}
 	return n
+}
+
+// mentionsConstDef: the term mentions a defined name whose definition is
+// (transitively) built from constant package-level slice names.
+func (t *FnTrans) mentionsConstDef(term string) bool {
+	for n := range t.constDefs {
+		if strings.Contains(term, n) {
+			return true
+		}
+	}
+	return false
 }
 
 func (t *FnTrans) assume(guard, term, why string) {
@@ -325,7 +344,22 @@ func (t *FnTrans) selectComp(st *HeapState, l *Loc, cd compDesc) string {
 			return sx("select", ca, l.Idx)
 		}
 		arr := t.heapGet(st, comp, arraySort("Int", arraySort(t.mode.idxSort(), cd.sort)))
-		return sx("select", sx("select", arr, l.Ref), l.Idx)
+		r := sx("select", sx("select", arr, l.Ref), l.Idx)
+		// the base may be (a choice of) constant package-level slices, whose
+		// contents never change whatever happened to the heap
+		var names []string
+		for n := range t.constArrs {
+			// only when the base term is built from constant-slice names (a
+			// choice between them after a branch); other bases are heap objects
+			if t.constElemSort[n] == cd.sort && cd.suffix == "" && (strings.Contains(l.Ref, "gconst.") || t.mentionsConstDef(l.Ref)) {
+				names = append(names, n)
+			}
+		}
+		sort.Strings(names)
+		for _, n := range names {
+			r = ite(eq(l.Ref, n), sx("select", t.constArrs[n], l.Idx), r)
+		}
+		return r
 	}
 	arr := t.heapGet(st, comp, arraySort("Int", cd.sort))
 	return sx("select", arr, l.Ref)
@@ -706,6 +740,15 @@ func (t *FnTrans) oblName(kind, text string) string {
 }
 
 func fnKey(fn *ssa.Function) string {
+	if par := fn.Parent(); par != nil {
+		// closure: keyed as <key of the outermost enclosing function minus its name><closure name>
+		root := par
+		for root.Parent() != nil {
+			root = root.Parent()
+		}
+		rk := fnKey(root)
+		return strings.TrimSuffix(rk, root.Name()) + fn.Name()
+	}
 	if recv := fn.Signature.Recv(); recv != nil {
 		rt := recv.Type()
 		star := ""
@@ -1724,6 +1767,21 @@ func (t *FnTrans) modifiesComps(callee *ssa.Function, con *Contract) ([]string, 
 			return nil, false
 		case item == "allbytes":
 			res = append(res, "B."+t.sortKey(types.Typ[types.Uint8]))
+		case strings.HasPrefix(item, "fieldsof(") && strings.HasSuffix(item, ")"):
+			var pkg *types.Package
+			if callee.Pkg != nil {
+				pkg = callee.Pkg.Pkg
+			}
+			sty := t.W.structTypeByName(pkg, strings.TrimSpace(item[len("fieldsof("):len(item)-1]))
+			if sty == nil {
+				return nil, false
+			}
+			su := sty.Underlying().(*types.Struct)
+			for i := 0; i < su.NumFields(); i++ {
+				for _, cd := range t.flatComps(su.Field(i).Type()) {
+					res = append(res, "F."+typeKey(sty)+"."+su.Field(i).Name()+cd.suffix)
+				}
+			}
 		case strings.HasPrefix(item, "mapof(") && strings.HasSuffix(item, ")"):
 			pt := paramType(strings.TrimSpace(item[len("mapof(") : len(item)-1]))
 			if pt == nil {
